@@ -215,6 +215,11 @@ func runSeeds(tier string, seed int64) {
 		emitSeed(strOfLen(r, n, true), "pw", "mlen")
 		emitSeed("abandon ability", strOfLen(r, n, n%2 == 0), "plen")
 	}
+	// large inputs (beyond any 16-bit length, buffer or chunk size), validated like the small ones
+	for _, n := range map[string][]int{"quick": {65535, 65537}, "thorough": {65535, 65536, 65537, 100000, 1 << 20}}[tier] {
+		emitSeed(strOfLen(r, n, true), "TREZOR", "large")
+		emitSeed("abandon", strOfLen(r, n, true), "large")
+	}
 	// F3 probes (known finding): starter + k identical marks
 	for _, k := range []int{31, 40, 61} {
 		emitSeed("abandon", "a"+strings.Repeat("́", k), "f3probe")
